@@ -82,6 +82,12 @@ SIG = {
                       [('hashlib_sha256', 'Bytes → Bytes'), ('OPS', 'List (String × Bytes)'), ('self_version', 'Bytes'),
                        ('self_inputs', 'List Py.PyTxIn'), ('self_outputs', 'List Py.PyTxOut'), ('self_locktime', 'Bytes'),
                        ('txin_index', 'Int'), ('script', 'List Py.PyTok'), ('amount', 'Int'), ('sighash', 'Int')], 'Bytes'),
+    # BIP341 / BIP342 signature message
+    'taproot_digest': ('transactions.py', 'Transaction.get_transaction_taproot_digest',
+                       [('hashlib_sha256', 'Bytes → Bytes'), ('OPS', 'List (String × Bytes)'), ('self_version', 'Bytes'),
+                        ('self_inputs', 'List Py.PyTxIn'), ('self_outputs', 'List Py.PyTxOut'), ('self_locktime', 'Bytes'),
+                        ('txin_index', 'Int'), ('script_pubkeys', 'List (List Py.PyTok)'), ('amounts', 'List Int'),
+                        ('ext_flag', 'Int'), ('script', 'List Py.PyTok'), ('leaf_ver', 'Int'), ('sighash', 'Int')], 'Bytes'),
     # the rest of the bundled RIPEMD-160
     'rmd_compress': ('ripemd160.py', 'compress',
                      [('h0', 'Int'), ('h1', 'Int'), ('h2', 'Int'), ('h3', 'Int'), ('h4', 'Int'), ('block', 'Bytes')],
@@ -130,7 +136,7 @@ WHILE_FUEL = {'convertbits': '(Int.toNat bits + 1)',
               'script_from_raw': '(List.length scriptraw + 1)'}
 # return types of translated callees that are lists (for `+` -> `++`)
 LIST_RET = {'bech32_hrp_expand', 'bech32_create_checksum'}
-STR_UTF8 = {'utils_tagged_hash', 'tapbranch_tagged_hash', 'tapleaf_tagged_hash', 'add_magic_prefix'}
+STR_UTF8 = {'utils_tagged_hash', 'tapbranch_tagged_hash', 'tapleaf_tagged_hash', 'add_magic_prefix', 'taproot_digest'}
 POINT_RET = {'point_add': 'schnorr_point_add', 'point_mul': 'schnorr_point_mul', 'lift_x': 'schnorr_lift_x'}
 CALLS = {'ripemd160': 'rmd_ripemd160', 'rol': 'rmd_rol', 'fi': 'rmd_fi', '_push_integer': 'push_integer', 'vi_to_int': 'vi_to_int',
          'encode_varint': 'encode_varint', 'prepend_compact_size': 'prepend_compact_size',
@@ -161,7 +167,7 @@ class Tr:
     def __init__(s, name, file=None):
         s.name = name; s.tmp = 0; s.pre = []; s.declared = set(); s.points = set(); s.tuple5 = set()
         s.toklists = set(); s.tokvars = set(); s.optables = set(); s.byteslists = set(); s.reclists = {}; s.recvars = {}; s.revtables = set()
-        s.hoisted = set()
+        s.hoisted = set(); s.selfcopies = set(); s.scriptlists = set()
         s.fconsts = FILE_CONSTS.get(file, {})
 
     def fail(s, n, why):
@@ -322,7 +328,7 @@ class Tr:
         if isinstance(n, ast.Attribute) and isinstance(n.value, ast.Name) and n.value.id == 'self' and \
                 ('self_' + n.attr in s.toklists or 'self_' + n.attr in s.byteslists or 'self_' + n.attr in s.reclists):
             return 'self_' + n.attr
-        if isinstance(n, ast.Name) and (n.id in s.intlists or n.id in s.bytesvars or n.id in s.charlists):
+        if isinstance(n, ast.Name) and (n.id in s.intlists or n.id in s.bytesvars or n.id in s.charlists or n.id in s.scriptlists):
             if n.id in s.bytesvars: s.fail(n, 'iteration over bytes')
             return n.id
         s.fail(n, 'iterable')
@@ -465,6 +471,10 @@ class Tr:
                 return s.eff(f'script_to_bytes OPS self_{f.value.attr}')            # self.script_sig.to_bytes()
             if f.attr == 'to_bytes' and not args and isinstance(f.value, ast.Name) and f.value.id == 'self' and 'self_script' in s.toklists:
                 return s.eff('script_to_bytes OPS self_script')                       # self.to_bytes() inside a Script method
+            if (f.attr == 'to_bytes' and not args and isinstance(f.value, ast.Subscript) and isinstance(f.value.value, ast.Name)
+                    and f.value.value.id in s.scriptlists and not isinstance(f.value.slice, ast.Slice) and 'OPS' in s.optables):
+                sc = s.eff(f'Py.listGet {f.value.value.id} {s.e(f.value.slice)}')      # script_pubkeys[i].to_bytes()
+                return s.eff(f'script_to_bytes OPS {sc}')
             if f.attr == 'to_bytes' and not args and isinstance(f.value, ast.Name) and f.value.id in s.toklists and 'OPS' in s.optables:
                 return s.eff(f'script_to_bytes OPS {f.value.id}')                  # script.to_bytes() on a Script argument
             if f.attr == 'encode' and isinstance(f.value, ast.Name) and f.value.id in s.bytesvars and len(args) <= 1:
@@ -618,6 +628,7 @@ class Tr:
                 bind = f'{ind}  {v} := {v}_it' if v in s.hoisted else f'{ind}  let {v} := {v}_it'
                 return pre + [f'{ind}for {v}_it in {it} do', bind] + body
             if it in s.toklists: s.tokvars.add(v)
+            if it in s.scriptlists: s.toklists.add(v)
             if it in s.byteslists: s.bytesvars.add(v)
             if it in s.reclists: s.recvars[v] = s.reclists[it]
             return pre + [f'{ind}for {v} in {it} do'] + s.block(st.body, ind + '  ')
@@ -678,6 +689,8 @@ class Tr:
         s.ret = ret; s.bytesvars = {p for p, t in params if t == 'Bytes'}; s.boolvars = {p for p, t in params if t == 'Bool'}
         s.intlists = {p for p, t in params if t == 'List Int'}; s.charlists = {p for p, t in params if t == 'List Char'}
         s.declared = {p for p, _ in params}; s.selfalias = set(); s.params = {p for p, _ in params}
+        s.fnode = node
+        s.scriptlists = {p for p, t in params if t == 'List (List Py.PyTok)'}
         s.points = {p for p, t in params if t == 'Point'}
         s.toklists = {p for p, t in params if t == 'List Py.PyTok'}; s.tokvars = set()
         s.byteslists = {p for p, t in params if t == 'List Bytes'}
@@ -689,6 +702,33 @@ class Tr:
         s.ret = ret
         # in __init__ the parameters are named without self_; `self.x` then refers to the same value
         ps = ' '.join(f'({p} : {t})' for p, t in params)
+        # `tmp = Transaction.copy(self)` whose copy is only read: the deep copy denotes the same values as self (that it is a
+        # *fresh* object is property C13's subject, not this function's), so reads of tmp.x are reads of self.x
+        def is_selfcopy(st):
+            return (isinstance(st, ast.Assign) and len(st.targets) == 1 and isinstance(st.targets[0], ast.Name)
+                    and isinstance(st.value, ast.Call) and isinstance(st.value.func, ast.Attribute) and st.value.func.attr == 'copy'
+                    and isinstance(st.value.func.value, ast.Name) and st.value.func.value.id == 'Transaction'
+                    and len(st.value.args) == 1 and isinstance(st.value.args[0], ast.Name) and st.value.args[0].id == 'self')
+        copies = [st.targets[0].id for st in node.body if is_selfcopy(st)]
+        if copies:
+            for x in ast.walk(node):
+                if isinstance(x, ast.Name) and x.id in copies and isinstance(x.ctx, ast.Store) and not any(
+                        is_selfcopy(st) and st.targets[0] is x for st in node.body):
+                    s.fail(x, 'copy of self re-bound')
+                if isinstance(x, (ast.Attribute, ast.Subscript)) and isinstance(x.ctx, (ast.Store, ast.Del)):
+                    y = x
+                    while isinstance(y, (ast.Attribute, ast.Subscript)): y = y.value
+                    if isinstance(y, ast.Name) and y.id in copies: s.fail(x, 'copy of self that is written to')
+                if isinstance(x, ast.Call) and isinstance(x.func, ast.Attribute) and isinstance(x.func.value, ast.Attribute):
+                    y = x.func.value
+                    while isinstance(y, (ast.Attribute, ast.Subscript)): y = y.value
+                    if isinstance(y, ast.Name) and y.id in copies and x.func.attr in ('append', 'extend', 'pop', 'insert', 'clear', 'remove', 'sort', 'reverse'):
+                        s.fail(x, 'copy of self that is mutated')
+            node.body = [st for st in node.body if not is_selfcopy(st)]
+            class RC(ast.NodeTransformer):
+                def visit_Name(self, n):
+                    return ast.copy_location(ast.Name(id='self', ctx=n.ctx), n) if n.id in copies else n
+            node = RC().visit(node)
         pre = s.hoist(node, params)
         if node.name == '__init__':
             # self.x reads refer to parameter x (after the `self.x = x` copies)
